@@ -18,7 +18,7 @@ ASSUMPTIONS = [
 
 # ----------------------------------------------------------------------------- universe for the cmp laws
 
-_num = st.one_of(st.integers(-2, 3), st.sampled_from([-1.5, 0.0, 1.0, 2.0, 2.5, 1e300]))
+_num = st.one_of(st.integers(-2, 3), st.sampled_from([-1.5, 0.0, 1.0, 2.0, 2.5, 1e300]), st.sampled_from([2 ** 53, 2 ** 53 + 1, 2.0 ** 53, -(2 ** 53) - 1]))
 _nan = st.integers(0, 1).map(lambda k: ['nan', k])
 _inf = st.sampled_from([['inf', 1], ['inf', -1]])
 _str = st.sampled_from(['', 'a', 'ab', 'b', 'A', '1'])
@@ -156,7 +156,7 @@ def run_cmp_laws(spec):
 
 # the fixed pool for the exhaustive cube
 POOL = [
-    None, True, False, 0, 1, 2, -1, 0.0, 1.0, 2.5, -1.5, 1e300, ['nan', 0], ['nan', 1], ['inf', 1], ['inf', -1],
+    None, True, False, 0, 1, 2, -1, 0.0, 1.0, 2.5, -1.5, 1e300, 2 ** 53, 2 ** 53 + 1, 2.0 ** 53, ['nan', 0], ['nan', 1], ['inf', 1], ['inf', -1],
     '', 'a', 'b', 'ab', 'A', '1',
     ['dt', D0, 0], ['dt', D0, 3600], ['dt', D0 + 1, 0], ['date', D0], ['date', D0 + 1], ['dt64', D0, 0, 's'], ['dt64', D0 + 1, 0, 'D'],
     ['np', 'int64', 1], ['np', 'int64', 2], ['np', 'float64', 1.0], ['np', 'float64', ['nan', 0]], ['np', 'float32', 2.5], ['np', 'bool_', True], ['np', 'str_', 'a'],
@@ -181,7 +181,7 @@ def enum_cube(tier):
 
 # ----------------------------------------------------------------------------- sort(list)
 
-_sort_scalar = st.one_of(st.none(), st.integers(-2, 3), st.sampled_from([-1.5, 0.0, 1.0, 2.0, 2.5]), _nan, _str,
+_sort_scalar = st.one_of(st.none(), st.integers(-2, 3), st.sampled_from([2 ** 53, 2 ** 53 + 1, 2.0 ** 53]), st.sampled_from([-1.5, 0.0, 1.0, 2.0, 2.5]), _nan, _str,
                          st.tuples(st.integers(D0, D0 + 3), st.sampled_from([0, 3600])).map(lambda t: ['dt', t[0], t[1]]))
 _homog = [st.integers(-2, 3), st.sampled_from([-1.5, 0.0, 1.0, 2.0, 2.5]), _str, st.one_of(st.integers(-2, 3), st.floats(-2, 3, allow_nan=False).map(lambda f: round(f, 1)), _nan)]
 
